@@ -305,7 +305,7 @@ def run_case(case):
 
     def batched_genealogies(dic):
         """the distribution object directly with a batch of genealogies (rows with their own coalescent times) and batched theta"""
-        if not (B and m in ("constant", "skyride", "skygrid", "linear") and not V):
+        if not (B and m in ("constant", "exponential", "skyride", "skygrid", "linear") and not V):
             return
         s_ = d["sampling"]
         cs = [d["coalescent"]] + [kg.simulate(rng, s_, float(gm.loguniform(rng, 0.3, 3.0)) * d.get("scale", 1.0)) for _ in range(B - 1)]
